@@ -247,9 +247,50 @@ def run_evict(aiu, prog, cache_kind, st):
         st.violation(kind, detail, {'mode': 'evict', 'cache': cache_kind, 'prog': prog})
 
 
+def reuse_sweep(aiu, sigs, st):
+    """`deco = threadsafe_async_cache()` (options form, no cache given) applied to two functions: each
+    function must keep its own entries."""
+    deco = aiu.threadsafe_async_cache()
+    made = {'f': [], 'g': []}
+
+    def mk(tag):
+        async def raw(*args, **kwargs):
+            r = Result(args, dict(kwargs), len(made[tag]))
+            made[tag].append(r)
+            await asyncio.sleep(0)
+            return (tag, r)
+        return deco(raw)
+    f, g = mk('f'), mk('g')
+    out = []
+
+    async def main():
+        for a, kw in sigs:
+            out.append((await f(*a, **dict(kw)), await g(*a, **dict(kw))))
+        return True
+    run = run_main(main)
+    st.executions += 1
+    st.transitions += 2 * len(sigs)
+    if run.hang or run.error is not None:
+        st.violation('harness_abnormal', f'hang={run.hang} error={run.error!r}', {'mode': 'reuse'})
+        return
+    for (a, kw), (rf, rg) in zip(sigs, out):
+        st.sig(('reuse', repr(a), kw, rf[0], rg[0]))
+        for want, got in (('f', rf), ('g', rg)):
+            if got[0] != want or refkey(got[1].args, got[1].kwargs) != refkey(a, dict(kw)):
+                st.violation('foreign_result',
+                             f'{want}{a!r}{dict(kw)!r} returned {got!r}: a result of another function / other '
+                             f'arguments (one decorator object, created without a cache, wrapped two functions)',
+                             {'mode': 'reuse', 'args': repr(a), 'kwargs': kw})
+
+
 def run_case(item):
     from aiuti import asyncio as aiu
     st = Stats()
+    if item[0] == 'reuse':
+        sigs = list(signatures(item[1], item[2]))
+        reuse_sweep(aiu, sigs, st)
+        st.sample({'mode': 'decorator object reused for two functions', 'signatures': len(sigs)})
+        return st
     if item[0] == 'sweep':
         _, maxpos, maxkw, mode, cache_kind, part, parts = item
         sigs = [s for i, s in enumerate(signatures(maxpos, maxkw)) if i % parts == part]
@@ -281,6 +322,7 @@ def main(tier):
     for mode in ('forward', 'reverse', 'shuffled', 'concurrent'):
         for cache_kind in ('default', 'dict', 'logmap'):
             plan.append(('sweep', maxpos, maxkw, mode, cache_kind, 0, 1))
+    plan.append(('reuse', 2, 2))
     n = 4 if tier == 'quick' else 5
     for cache_kind in ('logmap', 'dict'):
         plan += [('evict', n, cache_kind, p, 16) for p in range(16)]
